@@ -2,6 +2,7 @@
 
 from __future__ import annotations
 
+import copy
 import itertools
 from fractions import Fraction
 
@@ -24,7 +25,15 @@ RULE = (
     'empty) next to per-bin or 0-D dense operands, and dense with 0-D operands, x the full dtype product of its '
     'non-vector operands (of its data operands when there are more than three; units drawn per cell), baseline = dense per-event canonical call; (b) the gravity kernels '
     'with incident beams tilted 1e-12..3e-3 rad out of the plane perpendicular to gravity (one per decade, both '
-    'signs, axis-aligned and rotated frames, 1-d and 2-d layouts) x every (incident, scattered) beam-unit pair'
+    'signs, axis-aligned and rotated frames, 1-d and 2-d layouts) x every (incident, scattered) beam-unit pair; (c) the '
+    'energy-transfer kernels with arrival times at or before t0 (some points / all points / tof = 0 at the first point; '
+    'dense and event data) x the dtype product of tof x energy: NaN exactly there (documented), values elsewhere; (d) '
+    'classes of use, per kernel: an operand with variances (result variances = first-order propagation where one operand '
+    'alone defines it), the kernel called positionally / mixed (where the documented signature has positional parameters) '
+    'and as a node of a transform_coords graph (dense and binned data arrays, with masks, dim named like the input '
+    'coordinate), caller dims named like dims the package uses internally, every layout of the vector operands, the same '
+    'operands a second time after repr/deepcopy/== and a refused call, results fed back as operands through a chain of six '
+    'kernels, operands of 2**20 + 7 elements (gravity kernels also 3 x 400001) against the periodically continued small call'
 )
 ASSUMPTIONS = [
     'the canonical-unit float64 result of each kernel is correct (decided by C01/C03/C04/C05/C08)',
@@ -35,6 +44,13 @@ ASSUMPTIONS = [
     "along gravity of 1e-10 in the beam's own unit; a geometry at or below that (to the rounding of the float64 dot "
     'product) in any compared unit gets an allowance of 2 x its tilt, and a refusal that differs between units there '
     'is undecided (DESIGN 9.2, C04 dispatch band)',
+    'unphysical points are generated at tof <= 0.8 t0 (t0 itself is only located to rounding); NaN there is the '
+    'documented result of the energy-transfer kernels',
+    'variances: judged only where one operand alone carries them and the definition is a power law / a sum in it '
+    "(scipp's first-order propagation is then unambiguous); single-precision variances that leave the float32 exponent "
+    'range are undecided; the gravity kernels of the unchanged tree refuse a wavelength with variances (counted)',
+    'an exception of the package in a decided cell is a violation wherever it surfaces: in the canonical-unit cell, '
+    'before the kernel body runs (call could not be made), inside it, or after it returned (graph use)',
 ]
 TOL64, TOL32 = 1e-11, 1e-5
 
@@ -134,8 +150,8 @@ SPEC_BY_NAME = {s.name: s for s in SPECS}
 
 
 # --------------------------------------------------------- physical points ---
-def draw_point(rng, spec, n=6, force_integer=False):
-    """Exact rational values per argument, in the canonical unit of its kind."""
+def draw_point(rng, spec, n=6, force_integer=False, moderate=False):
+    """Exact rational values per argument, in the canonical unit of its kind (moderate: small integers there)."""
     pt = {}
     for a in spec.args:
         if a.vector:
@@ -147,6 +163,8 @@ def draw_point(rng, spec, n=6, force_integer=False):
             'energy': [1000, 1, Fraction(1, 1000)], 'Q': [1, Fraction(1, 10), Fraction(1, 10)],
         }
         r = rng.random() * (0.8 if force_integer else 1.0)
+        if moderate:
+            r = 0.3 + 0.2 * r
         vals = []
         for _ in range(n):
             if a.kind == 'angle':
@@ -196,7 +214,7 @@ def express(value: Fraction, kind, unit, dtype):
     f = dict(KINDS[kind])[unit]
     q = value / f
     if dtype.startswith('int'):
-        if q.denominator != 1 or not (0 < q.numerator < 2**26):
+        if q.denominator != 1 or not (0 < q.numerator < 2**26 or value == 0):
             return None
         return int(q)
     return float(si.ld(q))
@@ -205,8 +223,18 @@ def express(value: Fraction, kind, unit, dtype):
 def make_var(vals, unit, dtype, vector=False, scalar=False, dim='x'):
     if vector:
         arr = np.asarray(vals, dtype=np.float64)
-        return sc.vector(arr, unit=unit) if arr.ndim == 1 else sc.vectors(dims=['x'], values=arr, unit=unit)
+        return sc.vector(arr, unit=unit) if arr.ndim == 1 else sc.vectors(dims=[dim], values=arr, unit=unit)
     return sc.array(dims=[dim], values=np.asarray(vals), unit=unit, dtype=dtype)
+
+
+REL_SIGMA = 1.0 / 16  # operands with variances: sigma = value / 16 (a dyadic fraction: exact in every dtype)
+
+
+def with_variances(var):
+    """The same dense variable carrying variances (value / 16)^2."""
+    out = var.copy()
+    out.variances = (np.asarray(var.values) * var.values.dtype.type(REL_SIGMA)) ** 2
+    return out
 
 
 # ---------------------------------------------------------------- layouts ---
@@ -254,10 +282,12 @@ def layouts_of(spec):
     return [Layout(s, o) for s in sets for o in ('per_bin', 'scalar')] + [Layout((), 'scalar', arrays=data)]
 
 
-def make_events(vals, unit, dtype):
-    data = sc.array(dims=['event'], values=np.asarray(vals), unit=unit, dtype=dtype)
-    return sc.bins(dim='event', data=data, begin=sc.array(dims=['x'], values=EV_BEGIN, unit=None, dtype='int64'),
-                   end=sc.array(dims=['x'], values=EV_END, unit=None, dtype='int64'))
+def make_events(vals, unit, dtype, dim='x', evdim='event', variances=False):
+    data = sc.array(dims=[evdim], values=np.asarray(vals), unit=unit, dtype=dtype)
+    if variances:
+        data = with_variances(data)
+    return sc.bins(dim=evdim, data=data, begin=sc.array(dims=[dim], values=EV_BEGIN, unit=None, dtype='int64'),
+                   end=sc.array(dims=[dim], values=EV_END, unit=None, dtype='int64'))
 
 
 def desc(v):
@@ -278,6 +308,18 @@ def flat(var):
     idx = np.concatenate([np.arange(i, j) for i, j in zip(b, e, strict=True)]) if len(b) else np.zeros(0, dtype=int)
     data = c['data']
     return data.unit, data.dtype, np.asarray(data.values)[idx.astype(int)]
+
+
+def flat_variances(var):
+    """Element variances in the order of `flat` (None when the result carries none)."""
+    if var.bins is None:
+        return None if var.variances is None else np.asarray(var.variances)
+    c = var.bins.constituents
+    if c['data'].variances is None:
+        return None
+    b, e = np.asarray(c['begin'].values).ravel(), np.asarray(c['end'].values).ravel()
+    idx = np.concatenate([np.arange(i, j) for i, j in zip(b, e, strict=True)]) if len(b) else np.zeros(0, dtype=int)
+    return np.asarray(c['data'].variances)[idx.astype(int)]
 
 
 def note_layout_classes(ctx, spec, layout, dtypes):
@@ -310,9 +352,9 @@ def layout_cells(rng, spec):
     units drawn from those in which the point is exactly representable in that dtype (moderate units when a data
     operand is float32, see F32_DOMAIN); the complete unit x dtype grid for small kernels."""
     def cells(feasible):
-        grid = list(all_cells(spec))
-        if len(grid) <= 300:  # small kernels: the complete unit x dtype grid
-            return grid
+        size = int(np.prod([len(KINDS[a.kind]) * (1 if a.vector else len(DTYPES)) for a in spec.args]))
+        if size <= 300:  # small kernels: the complete unit x dtype grid
+            return list(all_cells(spec))
         out = []
         scal = [a for a in spec.args if not a.vector]
         if len(scal) > 3:  # the dtype product of the data operands, the other operands' dtypes drawn per cell
@@ -373,9 +415,217 @@ def inelastic_cond(kind, kw):
     return t, t0, E, other
 
 
-def run_kernel_grid(rng, ctx, spec, fn, cells, tier, mon, point_index=0, layout=DENSE):
+# ------------------------------------------------------------ classes of use ---
+# Besides unit, dtype and layout the property quantifies over every use the documented signatures allow: how
+# the kernel is called (keywords, positionally where the signature has positional parameters, as a node of a
+# `transform_coords` graph, where every parameter is looked up as a coordinate), what the operands carry
+# (variances; for the energy-transfer kernels arrival times at or before t0, documented to give NaN), how the
+# caller named the dims, how large the operands are, and whether the call is the first one with these operands.
+CALLS = {'kw': 'with keywords', 'positional': 'positionally', 'mixed': 'with the first operand positional and the rest as keywords',
+         'graph': 'as a node of a transform_coords graph'}
+# kernels whose documented signature has positional-or-keyword parameters (all others are keyword-only)
+POSITIONAL = {'scattering_angles_with_gravity', 'scattering_angle_in_yz_plane', 'propagate_times',
+              'wavelength_to_inverse_velocity'}
+# result = const x (operand)^p in the operand that carries variances: var(result) = (p result / operand)^2 var(operand)
+VAR_POWER = {
+    'wavelength_from_tof': 1, 'dspacing_from_tof': 1, 'energy_from_tof': -2, 'energy_from_wavelength': -2,
+    'wavelength_from_energy': Fraction(-1, 2), 'Q_from_wavelength': -1, 'wavelength_from_Q': -1,
+    'dspacing_from_wavelength': 1, 'dspacing_from_energy': Fraction(-1, 2), 'Q_elements_from_wavelength': -1,
+    'wavelength_to_inverse_velocity': 1,
+}
+# result = operand + (terms without variances): the variance passes through unchanged
+VAR_ADDITIVE = {'propagate_times': 'time', 'time_at_sample_from_tof': 'tof'}
+# names the implementation of the package uses for dims of its own, and names of the kernels' parameters
+DIM_NAMES = ['event', 'row', 'rotation', 'slit', 'vertex', 'cutout', 'range', 'subframe', 'wavelength', 'tof',
+             'two_theta', 'L2', 'time', 'distance', 'spectrum', 'detector_number', 'dim_0', 'x y', 'ångström']
+UNPHYSICAL = {'some': 'some of the points', 'all': 'all points', 'zero': 'tof = 0 (first bin edge) at the first point'}
+VEC_TEXT = {'0d': '0-D', 'x': 'one per point', 'y': 'one per point over a dim of its own'}
+BIG = 2**20 + 7
+BIG_2D = (3, 400001)
+
+
+class Opt:
+    def __init__(self, call='kw', unphysical=None, variances=False, dim='x', second=False, size=None, masks=False,
+                 vec=None):
+        self.call, self.unphysical, self.variances, self.dim = call, unphysical, variances, dim
+        self.second, self.size, self.masks = second, size, masks
+        self.vec = vec  # per vector operand: '0d' (one vector), 'x' (one per point), 'y' (one per point over a dim of its own)
+
+    @property
+    def plain(self):
+        return (self.call == 'kw' and self.unphysical is None and not self.variances and self.dim == 'x'
+                and not self.second and self.size is None and self.vec is None)
+
+    @property
+    def kind(self):
+        """Few-valued name of the class of use (violation key, event suffix)."""
+        if self.unphysical:
+            return 'unphysical points'
+        if self.variances:
+            return 'variances'
+        if self.size is not None:
+            return 'large operands'
+        if self.second:
+            return 'second use'
+        if self.vec is not None:
+            return 'operand layouts'
+        if self.call != 'kw':
+            return 'call ' + CALLS[self.call]
+        return 'caller dim names' if self.dim != 'x' else 'plain'
+
+    @property
+    def tag(self):
+        parts = []
+        if self.call != 'kw':
+            parts.append('called ' + CALLS[self.call] + (' (data array with masks)' if self.masks else ''))
+        if self.unphysical:
+            parts.append('tof <= t0 at ' + UNPHYSICAL[self.unphysical])
+        if self.variances:
+            parts.append('operand with variances')
+        if self.dim != 'x':
+            parts.append(f'dim {self.dim!r}')
+        if self.second:
+            parts.append('second use')
+        if self.size is not None:
+            parts.append(f'size {self.size}')
+        if self.vec is not None:
+            parts.append('operands: ' + ', '.join(f'{k} {VEC_TEXT[v]}' for k, v in self.vec.items()))
+        return '; '.join(parts)
+
+
+PLAIN = Opt()
+
+
+def vector_layouts(spec):
+    """Every way the vector operands of a kernel without the gravity dispatch can be laid out: each 0-D or one
+    per point; two pure vector operands also over different dims (2-d result).  The all-per-point layout is the grid's."""
+    if spec.name == 'propagate_times':
+        # documented: the distance "can be a range of distances" (a dim of its own); the package itself passes one distance
+        return [{'distance': '0d'}, {'distance': 'y'}, {'time': '0d', 'wavelength': '0d'}]
+    names = [a.name for a in spec.args if a.vector]
+    if not names or any(a.name == 'gravity' for a in spec.args):
+        return []
+    out = [dict(zip(names, c, strict=True)) for c in itertools.product(('0d', 'x'), repeat=len(names))]
+    out = [c for c in out if set(c.values()) != {'x'}]
+    if len(names) == 2 and all(a.vector for a in spec.args):
+        out += [{names[0]: 'y', names[1]: 'x'}, {names[0]: 'x', names[1]: 'y'}]
+    return out
+
+
+def var_arg(spec):
+    """The operand that carries the variances in the variances class (None: the kernel has no such class)."""
+    if spec.name in VAR_ADDITIVE:
+        return VAR_ADDITIVE[spec.name]
+    if spec.name == 'wavelength_to_inverse_velocity':
+        return 'wavelength'
+    data = [a.name for a in spec.args if a.data]
+    if spec.cond == 'inelastic':
+        return 'tof'
+    return data[0] if data else None
+
+
+def tile_to(arr, dims, sizes):
+    """Periodic continuation of a small array over `dims` to the sizes of a large result."""
+    arr = np.asarray(arr)
+    for ax, d in enumerate(dims):
+        if arr.shape[ax] != sizes[d]:
+            arr = np.take(arr, np.arange(sizes[d]) % arr.shape[ax], axis=ax)
+    return arr
+
+
+def as_data_array(kw, masks):
+    """The operands as coordinates of a data array (event operands as event coordinates of binned data)."""
+    binned = {k: v for k, v in kw.items() if v.bins is not None}
+    dense = {k: v for k, v in kw.items() if v.bins is None}
+    if binned:
+        c = next(iter(binned.values())).bins.constituents
+        buf = {k: v.bins.constituents['data'] for k, v in binned.items()}
+        nev = next(iter(buf.values())).sizes[c['dim']]
+        table = sc.DataArray(sc.ones(dims=[c['dim']], shape=[nev]), coords=buf)
+        if masks:
+            table.masks['rv event mask'] = sc.array(dims=[c['dim']], values=np.arange(nev) % 3 == 1)
+        data = sc.bins(begin=c['begin'], end=c['end'], dim=c['dim'], data=table)
+    else:
+        sizes = {}
+        for v in dense.values():
+            sizes.update(v.sizes)
+        data = sc.ones(dims=list(sizes), shape=list(sizes.values()))
+    da = sc.DataArray(data, coords=dense)
+    if masks and da.ndim:
+        d = da.dims[0]
+        da.masks['rv mask'] = sc.array(dims=[d], values=np.arange(da.sizes[d]) % 2 == 0)
+    return da
+
+
+def masks_of(da):
+    out = {k: np.asarray(v.values).copy() for k, v in da.masks.items()}
+    if da.bins is not None:
+        out.update({'event:' + k: np.asarray(v.bins.constituents['data'].values).copy() for k, v in da.bins.masks.items()})
+    return out
+
+
+def invoke(fn, spec, kw, opt):
+    """Call the kernel the way the class of use says; returns (masks before, masks after) for graph calls."""
+    names = [a.name for a in spec.args]
+    if opt.call == 'kw':
+        fn(**kw)
+    elif opt.call == 'positional':
+        fn(*[kw[n] for n in names])
+    elif opt.call == 'mixed':
+        fn(kw[names[0]], **{n: kw[n] for n in names[1:]})
+    else:
+        da = as_data_array(kw, opt.masks)
+        before = masks_of(da)
+        outs = tuple(spec.outputs) if spec.outputs else ('rv_result',)
+        res = da.transform_coords(list(outs), graph={outs if len(outs) > 1 else outs[0]: fn})
+        return before, masks_of(res)
+    return None
+
+
+def other_unit(v, unit='kg'):
+    out = v.copy()
+    if out.bins is not None:
+        out.bins.unit = unit
+    else:
+        out.unit = unit
+    return out
+
+
+def note_opt_classes(ctx, spec, opt, layout, dtypes, nan_mask):
+    if opt.unphysical:
+        ctx.hit('unphysical points (tof <= t0): ' + UNPHYSICAL[opt.unphysical])
+        en = 'incident_energy' if 'incident_energy' in dtypes else 'final_energy'
+        ctx.hit(f'unphysical points: tof {dtypes["tof"]} x energy {dtypes[en]}')
+        ctx.hit('unphysical points: ' + ('event data' if layout.binned else 'dense operands'))
+    if opt.variances:
+        va = var_arg(spec)
+        ctx.hit('operand with variances: ' + ('power law' if spec.name in VAR_POWER else 'additive term'
+                                              if spec.name in VAR_ADDITIVE else 'energy transfer (tof)'))
+        ctx.hit('operand with variances: ' + ('event data' if va in layout.binned else 'dense'))
+    if opt.call != 'kw':
+        ctx.hit('called ' + CALLS[opt.call])
+        if opt.call == 'graph':
+            ctx.hit('graph node: ' + ('event data' if layout.binned else 'dense data array'))
+            if opt.masks:
+                ctx.hit('graph node: masks on the data array' + (' and on the events' if layout.binned else ''))
+            if opt.dim != 'x':
+                ctx.hit('graph node: dim named like the input coordinate')
+    elif opt.dim != 'x':
+        ctx.hit(f'caller dim named {opt.dim!r}')
+    if opt.vec is not None:
+        hows = set(opt.vec.values())
+        every = len(opt.vec) == (sum(a.vector for a in spec.args) or len(spec.args))
+        ctx.hit('operand layouts: ' + ('all 0-D' if hows == {'0d'} and every else 'over different dims (2-d result)' if 'y' in hows
+                                       else '0-D next to one per point'))
+    if opt.second:
+        ctx.hit('second use: same operands again after repr / deepcopy / == and a refused call')
+    if opt.size is not None:
+        ctx.hit('size 3 x 400001 (gravity kernels, 2-d)' if isinstance(opt.size, tuple) else 'size 2**20 + 7')
+
+
+def run_kernel_grid(rng, ctx, spec, fn, cells, tier, mon, point_index=0, layout=DENSE, opt=PLAIN):
     n = 6
-    pt = draw_point(rng, spec, n, force_integer=layout.others == 'per_bin')
+    pt = draw_point(rng, spec, n, force_integer=layout.others == 'per_bin', moderate=opt.variances)
     vecs = draw_vectors(rng, spec, n, point_index)
     # operands that are not event data are constant over the events of a bin (per-bin operands) or over all
     # events (0-D operands); rep[i] is the event whose values event i sees in them
@@ -388,7 +638,9 @@ def run_kernel_grid(rng, ctx, spec, fn, cells, tier, mon, point_index=0, layout=
                 vecs[a.name] = vecs[a.name][rep]
         else:
             pt[a.name] = [pt[a.name][r] for r in rep]
-    # inelastic: keep arrival well above t0 so that the definition is well conditioned (cond <= ~5)
+    # inelastic: keep arrival well above t0 so that the definition is well conditioned (cond <= ~5); the
+    # points of the 'unphysical' class arrive at or before 0.8 t0 (decided: t0 is only located to rounding)
+    nan_mask = np.zeros(n, dtype=bool)
     if spec.cond == 'inelastic':
         m = si.constants()['m_n']
         fixed = 'incident_energy' if 'incident_energy' in pt else 'final_energy'
@@ -398,10 +650,23 @@ def run_kernel_grid(rng, ctx, spec, fn, cells, tier, mon, point_index=0, layout=
             E = si.ld(pt[fixed][i]) * si.ld(si.E_CHARGE) / 1000
             t0_us.append(float(si.ld(pt[Lf][i]) * np.sqrt(m / (2 * E)) * 1e6))
             fac.append(float(rng.uniform(1.5, 6.0)))
+        low = [float(rng.uniform(0.05, 0.8)) for _ in range(n)]
+
+        def group(i):
+            # a dense tof next to event energies is shared by the events of a bin
+            return [i] if 'tof' in layout.per_event or layout.default else [j for j in range(n) if rep[j] == rep[i]]
+
+        early = set()
+        for i in {'some': (1, 4), 'all': range(n), 'zero': (0,)}.get(opt.unphysical, ()):
+            early.update(group(i))
         for i in range(n):
-            # a dense tof next to event energies is shared by the events of a bin: above the largest t0 of them
-            grp = [i] if 'tof' in layout.per_event or layout.default else [j for j in range(n) if rep[j] == rep[i]]
-            k = int(np.ceil(max(t0_us[j] for j in grp) * fac[rep[i] if len(grp) > 1 else i])) + 1
+            grp = group(i)
+            if i in early:
+                k = 0 if opt.unphysical == 'zero' else int(np.floor(min(t0_us[j] for j in grp) * low[rep[i] if len(grp) > 1 else i]))
+                nan_mask[i] = True
+            else:
+                # above the largest t0 of the events that share the tof
+                k = int(np.ceil(max(t0_us[j] for j in grp) * fac[rep[i] if len(grp) > 1 else i])) + 1
             pt['tof'][i] = Fraction(k)
     canon_units = {a.name: KINDS[a.kind][0][0] for a in spec.args}
 
@@ -411,54 +676,91 @@ def run_kernel_grid(rng, ctx, spec, fn, cells, tier, mon, point_index=0, layout=
     if callable(cells):
         cells = cells(feasible)
     point_layout = layout
+    va = var_arg(spec) if opt.variances else None
+    two_d = isinstance(opt.size, tuple)
 
-    def build(units, dtypes, layout=layout):
+    def build(units, dtypes, layout=layout, variances=None, size=None, dim=opt.dim):
+        def big(arr, axis_len):
+            arr = np.asarray(arr)
+            return arr if axis_len is None else arr[np.arange(axis_len) % len(arr)]
+
         kw = {}
         for a in spec.args:
             u, dt = units[a.name], dtypes[a.name]
+            # gravity kernels: every other pair of points gives the wavelength its own dimension, so that
+            # the result is 2-d (detector x wavelength) and the out-of-place broadcasting branch runs
+            own_dim = (a.name == 'wavelength' and 'gravity' in vecs and point_layout.default
+                       and ((point_index // 2) % 2 == 1 or two_d) and opt.dim == 'x')
+            length = None if size is None else size[1 if own_dim else 0] if two_d else size
             if a.vector:
                 f = dict(KINDS[a.kind])[u]
                 v = vecs[a.name] / float(f)
                 if v.ndim == 2 and layout.others != 'x':
                     v = v[EV_REP_BIN] if layout.others == 'per_bin' else v[0]
-                kw[a.name] = make_var(v, u, 'float64', vector=True)
+                if v.ndim == 2:
+                    v = big(v, length)
+                how = (opt.vec or {}).get(a.name, 'x')
+                if v.ndim == 2 and how == '0d':
+                    v = v[0]
+                kw[a.name] = make_var(v, u, 'float64', vector=True, dim='y' if how == 'y' else dim)
                 continue
             vals = [express(v, a.kind, u, dt) for v in pt[a.name]]
             if any(v is None for v in vals):
                 return None
+            carries = variances == a.name
             if a.name in layout.binned:
-                kw[a.name] = make_events(vals, u, dt)
+                kw[a.name] = make_events(vals, u, dt, dim=dim, variances=carries)
                 continue
             if a.name in layout.arrays:
-                kw[a.name] = make_var(vals, u, dt)
-                continue
-            if layout.others == 'per_bin':
-                kw[a.name] = make_var([vals[r] for r in EV_REP_BIN], u, dt)
-                continue
-            if layout.others == 'scalar':
+                kw[a.name] = make_var(vals, u, dt, dim=dim)
+            elif layout.others == 'per_bin':
+                kw[a.name] = make_var([vals[r] for r in EV_REP_BIN], u, dt, dim=dim)
+            elif layout.others == 'scalar':
                 kw[a.name] = sc.scalar(vals[0], unit=u, dtype=dt)
-                continue
-            # gravity kernels: every other pair of points gives the wavelength its own dimension, so that
-            # the result is 2-d (detector x wavelength) and the out-of-place broadcasting branch runs
-            own_dim = a.name == 'wavelength' and 'gravity' in vecs and (point_index // 2) % 2 == 1 and point_layout.default
-            kw[a.name] = make_var(vals, u, dt, dim='w' if own_dim else 'x')
+            elif (opt.vec or {}).get(a.name) == '0d':
+                kw[a.name] = sc.scalar(vals[0], unit=u, dtype=dt)
+            else:
+                kw[a.name] = make_var(big(vals, length), u, dt,
+                                      dim='w' if own_dim else 'y' if (opt.vec or {}).get(a.name) == 'y' else dim)
+            if carries:
+                kw[a.name] = with_variances(kw[a.name])
         return kw
 
-    base_kw = build(canon_units, {a.name: 'float64' for a in spec.args}, DENSE)
-    base = fn(**base_kw)
+    # the reference cell: canonical units, float64, dense, dims named 'x' whatever the caller's dims are called
+    base_kw = build(canon_units, {a.name: 'float64' for a in spec.args}, DENSE, dim='x')
+    try:
+        base = fn(**base_kw)
+    except Exception as e:  # noqa: BLE001  the package refused the reference cell of the grid: that is an observation
+        ctx.violation('raised', f'{spec.name} raised {type(e).__name__}: {e} in the canonical-unit float64 cell',
+                      {'kernel': spec.name, 'units': canon_units, 'args': {k: desc(v) for k, v in base_kw.items()}},
+                      kernel=spec.name, exc=type(e).__name__, int_operand=False, cell='canonical')
+        ctx.case((spec.name, 'canonical cell refused', layout.tag, opt.tag))
+        return
     base_out = {k: phys(v) for k, v in out_values(spec, base).items()}
+    base_dims = {k: tuple(opt.dim if d == 'x' else d for d in v.dims) for k, v in out_values(spec, base).items()}
     if not layout.default and any(np.ndim(v) != 1 for v in base_out.values()):
         ctx.inconclusive_because(f'{spec.name}: baseline of an event-data point is not one value per event')
         return
     if spec.cond == 'inelastic':
         t, t0, E, other = inelastic_cond('direct' if 'incident_energy' in base_kw else 'indirect', base_kw)
         abs_scale = np.maximum(np.abs(E), np.abs(other)) * np.abs(t / (t - t0))
+        # the documented NaN at unphysical points holds for the reference cell as for every other cell
+        base_nan = np.isnan(np.asarray(out_values(spec, base)[''].values, dtype=np.float64))
+        if not np.array_equal(base_nan, nan_mask):
+            ctx.event(spec.name)
+            ctx.violation('nan_pattern', f'{spec.name}: NaN at points {np.flatnonzero(base_nan).tolist()} of the canonical-unit '
+                          f'float64 cell, documented: NaN exactly where tof <= t0, points {np.flatnonzero(nan_mask).tolist()}',
+                          {'kernel': spec.name, 'units': canon_units, 'args': {k: desc(v) for k, v in base_kw.items()},
+                           't0_us': [repr(x) for x in t0_us]}, kernel=spec.name, cell='canonical')
+            ctx.case((spec.name, 'canonical cell', layout.tag, opt.tag))
+            return
     elif spec.absolute == 'angle':
         abs_scale = si.LD(1)
     elif spec.absolute == 'Q':
         abs_scale = 2 * si.PI / phys(base_kw['wavelength'])
     elif spec.absolute == 'time':
-        abs_scale = np.abs(phys(base_kw['time'])) + np.abs(base_out[''])
+        t_in = np.abs(phys(base_kw['time']))
+        abs_scale = (t_in if np.shape(t_in) == np.shape(base_out['']) else np.max(t_in)) + np.abs(base_out[''])
     elif spec.absolute == 'time_at_sample':
         abs_scale = np.abs(phys(base_kw['pulse_time'])) + np.abs(phys(base_kw['tof'])) + np.abs(base_out[''])
     else:
@@ -471,14 +773,19 @@ def run_kernel_grid(rng, ctx, spec, fn, cells, tier, mon, point_index=0, layout=
         if spec.cond == 'same_time_unit':
             units = dict(units)
             units['pulse_time'] = units['tof']
+        if va is not None and dtypes[va].startswith('int'):
+            dtypes = dict(dtypes)
+            dtypes[va] = 'float64'  # scipp: variances need a floating-point dtype
         if any(dtypes[a.name] == 'float32' for a in spec.args if a.data) and any(
                 units[a.name] not in F32_DOMAIN[a.kind] for a in spec.args):
             ctx.count('cells out of the float32 domain (extreme unit with single-precision data)')
             continue
-        kw = build(units, dtypes)
+        kw = build(units, dtypes, variances=va, size=opt.size)
         sig = (spec.name, tuple(units[a.name] for a in spec.args), tuple(dtypes[a.name] for a in spec.args))
         if not layout.default:
             sig = (*sig, layout.tag)
+        if not opt.plain:
+            sig = (*sig, opt.tag)
         if kw is None:
             ctx.count('cells skipped: value not an exact small integer in that unit')
             continue
@@ -506,11 +813,22 @@ def run_kernel_grid(rng, ctx, spec, fn, cells, tier, mon, point_index=0, layout=
         if not layout.default:
             case['layout'] = layout.tag
         lkeys = {} if layout.default else {'layout': 'events' if layout.binned else 'dense, 0-D operands'}
+        if not opt.plain:
+            case['use'] = opt.tag
+            lkeys['use'] = opt.kind
+        holder = {}
 
-        def judge(ev, case=case, tol=tol, want_dtype=want_dtype, want_unit=want_unit, sig=sig, kw=kw, any32=any32):
+        def judge(ev, case=case, tol=tol, want_dtype=want_dtype, want_unit=want_unit, sig=sig, kw=kw, any32=any32,
+                  lkeys=lkeys, holder=holder, dtypes=dtypes, first=None):
             if ev.exc is not None:
+                holder['kernel_raised'] = True
                 if isinstance(ev.exc, sc.DTypeError) and any(d == 'int32' for d in case['dtypes'].values()):
                     ctx.count('cells unsupported by scipp (DTypeError with int32)')
+                    return
+                if va is not None and isinstance(ev.exc, sc.VariancesError) and spec.name in GRAVITY_KERNELS:
+                    # the gravity kernels of the unchanged tree refuse a wavelength with variances (scipp does
+                    # not broadcast variances): a refusal, not a result
+                    ctx.count('refused: wavelength with variances in a gravity kernel (VariancesError)')
                     return
                 ctx.violation('raised', f'{spec.name} raised {type(ev.exc).__name__}: {ev.exc}',
                               dict(case, args={k: desc(v) for k, v in kw.items()}), kernel=spec.name,
@@ -521,10 +839,16 @@ def run_kernel_grid(rng, ctx, spec, fn, cells, tier, mon, point_index=0, layout=
             if not layout.default:
                 ctx.event(spec.name + (' [event data]' if layout.binned else ' [0-D operands]'))
                 note_layout_classes(ctx, spec, layout, case['dtypes'])
+            if not opt.plain:
+                ctx.event(spec.name + ' [' + opt.kind + ']')
+                ctx.event('[' + opt.kind + ']')
+                note_opt_classes(ctx, spec, opt, layout, dtypes, nan_mask)
             try:
                 outs = out_values(spec, ev.result)
                 for key, var in outs.items():
                     label = spec.name + (f'[{key}]' if key else '')
+                    if var.bins is None and var.dims != base_dims[key] and set(var.dims) == set(base_dims[key]):
+                        var = var.transpose(base_dims[key])
                     got_unit, got_dtype, got_vals = flat(var)
                     if got_unit != want_unit:
                         ctx.violation('unit', f'{label}: output unit {got_unit}, documented {want_unit}', case,
@@ -535,40 +859,159 @@ def run_kernel_grid(rng, ctx, spec, fn, cells, tier, mon, point_index=0, layout=
                                       kernel=spec.name, got=str(got_dtype), **lkeys)
                         return
                     got = got_vals.astype(si.LD) * si.factor(got_unit)
-                    want = base_out[key]
-                    if not layout.default and (got.shape != want.shape or (var.bins is None) != (not layout.binned)):
+                    want, scale = base_out[key], abs_scale
+                    if opt.size is not None:
+                        if var.ndim != want.ndim or set(var.dims) != set(base_dims[key]):
+                            ctx.violation('shape', f'{label}: result dims {var.dims}, canonical small call {base_dims[key]}',
+                                          case, kernel=spec.name, **lkeys)
+                            return
+                        want = tile_to(want, base_dims[key], var.sizes)
+                        if np.ndim(scale):
+                            scale = tile_to(scale, base_dims[key], var.sizes)
+                    if (not layout.default or opt.size is not None or opt.vec is not None) and (
+                            got.shape != want.shape or (var.bins is None) != (not layout.binned)):
                         ctx.violation('shape', f'{label}: result holds {got.shape} {"dense" if var.bins is None else "event"} '
                                       f'values for {want.shape} {"event" if layout.binned else "dense"} values put in', case,
                                       kernel=spec.name, **lkeys)
                         return
-                    if abs_scale is not None:
-                        f = np.abs(got - want) / (tol * abs_scale)
+                    ok = np.ones(got.shape, dtype=bool)
+                    if spec.cond == 'inelastic':
+                        got_nan = np.isnan(np.asarray(got_vals, dtype=np.float64))
+                        early = nan_mask if opt.size is None else tile_to(nan_mask, base_dims[key], var.sizes)
+                        ok = ~early
+                        if got_nan.shape != early.shape or not np.array_equal(got_nan, early):
+                            ctx.violation('nan_pattern', f'{label}: NaN at points {np.flatnonzero(got_nan)[:12].tolist()}, documented: '
+                                          f'NaN exactly where tof <= t0, points {np.flatnonzero(early)[:12].tolist()}',
+                                          dict(case, args={k: desc(v) for k, v in kw.items()}, t0_us=[repr(x) for x in t0_us]),
+                                          kernel=spec.name, **lkeys)
+                            return
+                        if not ok.any():
+                            continue
+                    if scale is not None:
+                        f = np.abs(got - want) / (tol * scale)
                     else:
                         f = si.relerr(got, want) / tol
+                    f = np.where(ok, f, 0)
                     worst = float(np.max(f))
                     ctx.dev(f'{spec.name}{"[" + key + "]" if key else ""}.{"f32" if any32 else "f64"} (fraction of bound)', worst)
-                    if not np.all(np.isfinite(np.asarray(got_vals, dtype=np.float64))) or worst > 1:
-                        i = int(np.argmax(f))
+                    if not np.all(np.isfinite(np.asarray(got_vals, dtype=np.float64)[ok])) or not worst <= 1:
+                        i = int(np.argmax(np.where(np.isfinite(f), f, np.inf)))
                         ctx.violation('not_equivariant', f'{label}: physical result changes by {worst:.3g} x bound when '
                                       f'inputs are re-expressed as {case["units"]} / {case["dtypes"]}',
-                                      dict(case, got=repr(np.ravel(got)[i]), baseline=repr(np.ravel(want)[i]),
+                                      dict(case, index=i, got=repr(np.ravel(got)[i]), baseline=repr(np.ravel(want)[i]),
                                            args={k: desc(v) for k, v in kw.items()}), kernel=spec.name,
                                       int_operand=any(d.startswith('int') for d in case['dtypes'].values()), **lkeys)
                         return
+                    if va is not None:
+                        if not judge_variances(label, key, var, got_vals, got_unit, kw, case, tol, lkeys):
+                            return
+                    if first is not None:
+                        u1, d1, v1 = flat(out_values(spec, first)[key])
+                        s1, s2 = flat_variances(out_values(spec, first)[key]), flat_variances(var)
+                        same = (u1 == got_unit and d1 == got_dtype and np.array_equal(v1, got_vals, equal_nan=True)
+                                and (s1 is None) == (s2 is None) and (s1 is None or np.array_equal(s1, s2, equal_nan=True)))
+                        ctx.event('second call compared with the first')
+                        if not same:
+                            ctx.violation('history', f'{label}: the same operands give a different result the second time '
+                                          '(after repr / deepcopy / == of the operands and a refused call)',
+                                          dict(case, first=desc(out_values(spec, first)[key]), second=desc(var),
+                                               args={k: desc(v) for k, v in kw.items()}), kernel=spec.name, **lkeys)
+                            return
+                holder['result'] = ev.result
             except Exception:  # noqa: BLE001
                 ctx.oracle_error('C07 ' + spec.name)
 
-        mon.expect = {'kernel': spec.name, 'judge': judge}
-        try:
-            fn(**kw)
-        except Exception:  # noqa: BLE001  judged through PY_UNWIND
-            pass
-        if mon.expect is not None:  # the monitor never saw the call
-            mon.expect = None
-            ctx.inconclusive_because(f'monitor on {spec.name} did not observe the call')
+        def judge_variances(label, key, var, got_vals, got_unit, kw, case, tol, lkeys, dtypes=dtypes):
+            got_var = flat_variances(var)
+            if got_var is None:
+                ctx.violation('variances', f'{label}: the result carries no variances although {va} does', case,
+                              kernel=spec.name, **lkeys)
+                return False
+            xu, _, x = flat(kw[va])
+            x, vx, y = x.astype(si.LD), flat_variances(kw[va]).astype(si.LD), got_vals.astype(si.LD)
+            cond = si.LD(1)
+            if spec.name in VAR_POWER:
+                p = si.ld(VAR_POWER[spec.name])
+                exp = p * p * vx / x**2 * y**2
+            elif spec.name in VAR_ADDITIVE:
+                exp = vx * (si.factor(xu) / si.factor(got_unit)) ** 2
+            elif spec.cond == 'inelastic' and not layout.binned:
+                plain_kw = {k: v if v.variances is None else sc.values(v) for k, v in kw.items()}
+                t, t0, E, other = inelastic_cond('direct' if 'incident_energy' in kw else 'indirect', plain_kw)
+                exp = (2 * other / (t - t0)) ** 2 * vx * (si.factor(xu) / si.factor(got_unit)) ** 2
+                cond = 4 * np.abs(t / (t - t0))
+            else:
+                ctx.count('variances not judged (no unambiguous first-order rule)')
+                return True
+            if dtypes[va] == 'float32':
+                # variances square the dynamic range: intermediate t^4 ... t^8 of an arrival time in ns or of many
+                # seconds leave the exponent range of single precision in either direction (the values themselves
+                # have been judged); judged only for operands and results of moderate magnitude
+                mags = np.abs(np.concatenate([np.ravel(x), np.ravel(y)[np.ravel(y) != 0]]))
+                if not np.all(np.isfinite(got_var)) or np.any(mags < 1e-4) or np.any(mags > 1e4):
+                    ctx.count('undecided: single-precision variances, operand or result outside 1e-4..1e4 (exponent range)')
+                    return True
+            ctx.event('variances compared with first-order propagation')
+            ctx.hit('operand with variances: ' + dtypes[va])
+            f = np.abs(got_var.astype(si.LD) - exp) / (8 * tol * cond * np.abs(exp) + np.finfo(np.float64).tiny)
+            f = np.where((exp == 0) & (got_var == 0), 0, f)
+            worst = float(np.max(f))
+            ctx.dev(f'{spec.name}{"[" + key + "]" if key else ""} variances (fraction of bound)', worst)
+            if not worst <= 1:
+                i = int(np.argmax(np.where(np.isfinite(f), f, np.inf)))
+                ctx.violation('variances', f'{label}: variance of the result is {worst:.3g} x bound away from first-order '
+                              f'propagation of the variance of {va}',
+                              dict(case, index=i, got=repr(np.ravel(got_var)[i]), expected=repr(np.ravel(exp)[i]),
+                                   args={k: desc(v) for k, v in kw.items()}), kernel=spec.name, **lkeys)
+                return False
+            return True
+
+        def call(judge_fn, stage):
+            """One observed call; an exception of the package that the monitor did not see is judged here."""
+            mon.expect = {'kernel': spec.name, 'judge': judge_fn}
+            exc = masks = None
+            holder.pop('kernel_raised', None)
+            try:
+                masks = invoke(fn, spec, kw, opt)
+            except Exception as e:  # noqa: BLE001  inside the kernel: judged through PY_UNWIND
+                exc = e
+            if mon.expect is not None:  # the monitor never saw the call
+                mon.expect = None
+                if exc is None:
+                    ctx.inconclusive_because(f'monitor on {spec.name} did not observe the call')
+                else:
+                    ctx.violation('raised', f'{spec.name} called {CALLS[opt.call]}: {type(exc).__name__}: {exc} '
+                                  '(before the kernel body ran)', dict(case, args={k: desc(v) for k, v in kw.items()}),
+                                  kernel=spec.name, exc=type(exc).__name__, stage='call',
+                                  int_operand=any(d.startswith('int') for d in case['dtypes'].values()), **lkeys)
+            elif exc is not None and not holder.get('kernel_raised'):
+                ctx.violation('raised', f'{spec.name} called {CALLS[opt.call]}: {type(exc).__name__}: {exc} '
+                              '(after the kernel returned)', dict(case, args={k: desc(v) for k, v in kw.items()}),
+                              kernel=spec.name, exc=type(exc).__name__, stage='after the kernel',
+                              int_operand=any(d.startswith('int') for d in case['dtypes'].values()), **lkeys)
+            elif masks is not None and opt.masks:
+                before, after = masks
+                ctx.event('masks of the data array compared after the graph call')
+                if before.keys() != after.keys() or any(not np.array_equal(before[k], after[k]) for k in before):
+                    ctx.violation('masks', f'{spec.name} as a graph node: masks of the data array changed', case,
+                                  kernel=spec.name, **lkeys)
+
+        call(judge, 'first')
+        if opt.second and 'result' in holder:
+            first = holder.pop('result')
+            bad = dict(kw)
+            bad[spec.args[0].name] = other_unit(kw[spec.args[0].name])
+            try:
+                fn(**bad)
+                ctx.count('second use: an operand in kg was accepted (no refusal to recover from)')
+            except Exception:  # noqa: BLE001  the refusal is the point: the next call must not be affected by it
+                ctx.count('second use: an operand in kg was refused, exception caught')
+            for v in kw.values():
+                repr(v), str(v), copy.copy(v), copy.deepcopy(v), v == v, sc.identical(v, v)  # noqa: B015
+            call(lambda ev: judge(ev, first=first), 'second')
         canonical = all(units[a.name] == canon_units[a.name] for a in spec.args) and all(
             d == 'float64' for d in dtypes.values())
-        ctx.case(sig, trivial=canonical and layout.default)
+        ctx.case(sig, trivial=canonical and layout.default and opt.plain)
         if len(ctx.samples) < 4:
             ctx.sample({'kernel': spec.name, 'units': units, 'dtypes': dtypes,
                         'args': {k: desc(v) for k, v in kw.items()}})
@@ -641,11 +1084,11 @@ def run_gravity_tilt(rng, ctx, spec, fn, mon):
             base = fn(**base_kw)
             base_dims = {k: v.dims for k, v in out_values(spec, base).items()}
             base_out = {k: phys(v) for k, v in out_values(spec, base).items()}
-        except ValueError as e:
-            if not yz:
-                ctx.violation('raised', f'{spec.name} raised ValueError: {e}',
+        except Exception as e:  # noqa: BLE001  the package refused the reference cell: an observation, not a harness error
+            if not (yz and isinstance(e, ValueError)):
+                ctx.violation('raised', f'{spec.name} raised {type(e).__name__}: {e} in the canonical-unit float64 cell',
                               {'kernel': spec.name, 'tilt_rad': tau, 'args': {k: desc(v) for k, v in base_kw.items()}},
-                              kernel=spec.name, exc='ValueError', int_operand=False, geometry='nearly perpendicular')
+                              kernel=spec.name, exc=type(e).__name__, int_operand=False, geometry='nearly perpendicular')
                 continue
             base_out = base_dims = None  # refused
         for ui in beam_units:
@@ -737,15 +1180,154 @@ def run_gravity_tilt(rng, ctx, spec, fn, mon):
                         ctx.oracle_error('C07 nearly perpendicular ' + spec.name)
 
                 mon.expect = {'kernel': spec.name, 'judge': judge}
+                exc = None
                 try:
                     fn(**kw)
-                except Exception:  # noqa: BLE001  judged through PY_UNWIND
-                    pass
+                except Exception as e:  # noqa: BLE001  judged through PY_UNWIND
+                    exc = e
                 if mon.expect is not None:
                     mon.expect = None
-                    ctx.inconclusive_because(f'monitor on {spec.name} did not observe the call')
+                    if exc is None:
+                        ctx.inconclusive_because(f'monitor on {spec.name} did not observe the call')
+                    else:
+                        ctx.violation('raised', f'{spec.name}: {type(exc).__name__}: {exc} (before the kernel body ran)',
+                                      dict(case, args={k: desc(v) for k, v in kw.items()}), exc=type(exc).__name__,
+                                      int_operand=dt.startswith('int'), stage='call', **keys)
                 ctx.case((spec.name, 'nearly perpendicular', f'1e{int(np.floor(np.log10(tau)))}', ui, us,
                           units['wavelength'], dt, units['gravity']))
+
+
+# ------------------------------------------------- results fed back as operands ---
+# A result of one kernel is a legitimate operand of the next (that is how conversion graphs use them): the
+# chain tof -> wavelength -> energy -> wavelength -> Q -> wavelength -> d-spacing is driven with each result
+# handed on as it came out (dense or event data, whatever dtype and unit the package gave it) and compared,
+# step by step, with the same chain started from the canonical-unit float64 dense operands.
+CHAIN = [('wavelength_from_tof', 'tof', ('Ltotal',), 'angstrom'), ('energy_from_wavelength', 'wavelength', (), 'meV'),
+         ('wavelength_from_energy', 'energy', (), 'angstrom'), ('Q_from_wavelength', 'wavelength', ('two_theta',), '1/angstrom'),
+         ('wavelength_from_Q', 'Q', ('two_theta',), 'angstrom'),
+         ('dspacing_from_wavelength', 'wavelength', ('two_theta',), 'angstrom')]
+CHAIN_TOL = 8  # the steps are power laws with exponents of magnitude <= 2: rounding of a step is amplified at most twice
+
+
+def run_chain(rng, ctx, fns, mon):
+    spec = SPEC_BY_NAME['dspacing_from_tof']  # the operands of the whole chain: tof, Ltotal, two_theta
+    n = 6
+    for layout in (DENSE, Layout(('tof',), 'per_bin')):
+        pt = draw_point(rng, spec, n, force_integer=bool(layout.binned))
+        rep = layout.rep(n)
+        for a in spec.args:
+            if a.name not in layout.per_event:
+                pt[a.name] = [pt[a.name][r] for r in rep]
+
+        def feasible(a, u, dt, pt=pt):
+            return all(express(v, a.kind, u, dt) is not None for v in pt[a.name])
+
+        def build(units, dtypes, layout, pt=pt):
+            kw = {}
+            for a in spec.args:
+                vals = [express(v, a.kind, units[a.name], dtypes[a.name]) for v in pt[a.name]]
+                if any(v is None for v in vals):
+                    return None
+                if a.name in layout.binned:
+                    kw[a.name] = make_events(vals, units[a.name], dtypes[a.name])
+                elif layout.binned:
+                    kw[a.name] = make_var([vals[r] for r in EV_REP_BIN], units[a.name], dtypes[a.name])
+                else:
+                    kw[a.name] = make_var(vals, units[a.name], dtypes[a.name])
+            return kw
+
+        def chain(kw, judge_step):
+            cur = kw['tof']
+            for k, (name, operand, others, _) in enumerate(CHAIN):
+                args = {operand: cur, **{o: kw[o] for o in others}}
+                cur = judge_step(k, name, args)
+                if cur is None:
+                    return
+
+        base = []
+        base_kw = build({a.name: KINDS[a.kind][0][0] for a in spec.args}, {a.name: 'float64' for a in spec.args}, DENSE)
+        try:
+            def plain_step(k, name, args):
+                res = fns[name](**args)
+                base.append(phys(res))
+                return res
+            chain(base_kw, plain_step)
+        except Exception as e:  # noqa: BLE001
+            ctx.violation('raised', f'chain of kernels: {type(e).__name__}: {e} in the canonical-unit float64 cell',
+                          {'chain': [c[0] for c in CHAIN], 'args': {k: desc(v) for k, v in base_kw.items()}},
+                          kernel='chain', exc=type(e).__name__, int_operand=False, cell='canonical')
+            continue
+        for units, dtypes in layout_cells(rng, spec)(feasible):
+            kw = build(units, dtypes, layout)
+            if kw is None:
+                ctx.count('cells skipped: value not an exact small integer in that unit')
+                continue
+            any32 = 'float32' in dtypes.values()
+            tol = CHAIN_TOL * (TOL32 if any32 else TOL64)
+            want_dtype = sc.DType.float32 if dtypes['tof'] == 'float32' else sc.DType.float64
+            case = {'chain': [c[0] for c in CHAIN], 'units': units, 'dtypes': dtypes, 'layout': layout.tag}
+            keys = {'use': 'results fed back', 'layout': 'events' if layout.binned else 'dense'}
+
+            def observed_step(k, name, args, case=case, tol=tol, want_dtype=want_dtype, kw=kw, keys=keys, dtypes=dtypes):
+                out = {}
+
+                def judge(ev):
+                    c = dict(case, step=k, kernel=name, args={a: desc(v) for a, v in args.items()})
+                    if ev.exc is not None:
+                        if isinstance(ev.exc, sc.DTypeError) and 'int32' in dtypes.values():
+                            ctx.count('cells unsupported by scipp (DTypeError with int32)')
+                            return
+                        ctx.violation('raised', f'{name} raised {type(ev.exc).__name__}: {ev.exc} on the result of '
+                                      f'{CHAIN[k - 1][0] if k else "the caller"}', c, kernel=name, exc=type(ev.exc).__name__,
+                                      int_operand=any(d.startswith('int') for d in dtypes.values()), **keys)
+                        return
+                    try:
+                        ctx.event('[results fed back]')
+                        ctx.hit('results fed back as operands: ' + ('event data' if layout.binned else 'dense'))
+                        if k:
+                            ctx.hit('results fed back as operands: ' + str(flat(args[CHAIN[k][1]])[1]) + ' result handed on')
+                        got_unit, got_dtype, got_vals = flat(ev.result)
+                        if got_unit != sc.Unit(CHAIN[k][3]):
+                            ctx.violation('unit', f'{name}: output unit {got_unit}, documented {CHAIN[k][3]}', c, kernel=name, **keys)
+                            return
+                        if got_dtype != want_dtype:
+                            ctx.violation('dtype', f'{name}: output dtype {got_dtype}, contract says {want_dtype} (step {k} of '
+                                          'the chain)', c, kernel=name, got=str(got_dtype), **keys)
+                            return
+                        got = got_vals.astype(si.LD) * si.factor(got_unit)
+                        if got.shape != base[k].shape or (ev.result.bins is None) != (not layout.binned):
+                            ctx.violation('shape', f'{name}: result holds {got.shape} values, chain started with {base[k].shape}',
+                                          c, kernel=name, **keys)
+                            return
+                        worst = float(np.max(si.relerr(got, base[k]) / tol))
+                        ctx.dev(f'chain step {k} {name}.{"f32" if "float32" in dtypes.values() else "f64"} (fraction of bound)', worst)
+                        if not worst <= 1:
+                            ctx.violation('not_equivariant', f'{name} (step {k} of the chain): physical result changes by '
+                                          f'{worst:.3g} x bound when the chain starts from {case["units"]} / {case["dtypes"]}',
+                                          c, kernel=name, int_operand=any(d.startswith('int') for d in dtypes.values()), **keys)
+                            return
+                        out['res'] = ev.result
+                    except Exception:  # noqa: BLE001
+                        ctx.oracle_error('C07 chain ' + name)
+
+                mon.expect = {'kernel': name, 'judge': judge}
+                exc = None
+                try:
+                    fns[name](**args)
+                except Exception as e:  # noqa: BLE001  judged through PY_UNWIND
+                    exc = e
+                if mon.expect is not None:
+                    mon.expect = None
+                    if exc is None:
+                        ctx.inconclusive_because(f'monitor on {name} did not observe the call')
+                    else:
+                        ctx.violation('raised', f'{name}: {type(exc).__name__}: {exc} (before the kernel body ran)',
+                                      dict(case, step=k), kernel=name, exc=type(exc).__name__, stage='call',
+                                      int_operand=False, **keys)
+                return out.get('res')
+
+            chain(kw, observed_step)
+            ctx.case(('chain', tuple(units.values()), tuple(dtypes.values()), layout.tag))
 
 
 GRAVITY_KERNELS = [s.name for s in SPECS if any(a.name == 'gravity' for a in s.args)]
@@ -763,16 +1345,30 @@ def all_cells(spec):
 
 def plan(tier, seed):
     shards = []
-    per = 2 if tier == 'quick' else 2
-    for i in range(0, len(SPECS), per):
-        shards.append({'kernels': [s.name for s in SPECS[i:i + per]],
-                       'cells': 3000 if tier == 'quick' else 140000, 'points': 2 if tier == 'quick' else 2})
-    # the forced classes (event-data / 0-D layouts, nearly perpendicular beams) in shards of their own
+    # quick: 14 planned shards, so that they run in one wave together with the two environment variants of shard 0
+    names = [s.name for s in SPECS]
+    if tier == 'quick':
+        light = [n for n in names if n in ('L1', 'L2', 'two_theta', 'total_straight_beam_length_no_scatter',
+                                           'time_at_sample_from_tof')]
+        other = [n for n in names if n not in light]
+        groups = [other[i:i + 4] for i in range(0, len(other), 4)] + [light]
+    else:
+        groups = [names[i:i + 2] for i in range(0, len(names), 2)]
+    for group in groups:
+        shards.append({'kernels': group, 'cells': 3000 if tier == 'quick' else 140000, 'points': 2})
+    # the forced classes (event-data / 0-D layouts, nearly perpendicular beams, unphysical arrival times) in shards
+    # of their own
     with_layouts = [s.name for s in SPECS if layouts_of(s)]
     heavy = [[n] for n in with_layouts if n.startswith('energy_transfer')] + [list(GRAVITY_KERNELS)]
     rest = [n for n in with_layouts if not any(n in h for h in heavy)]
     for group in [*heavy, rest[:len(rest) // 2], rest[len(rest) // 2:]]:
         shards.append({'part': 'classes', 'kernels': group, 'rounds': 1 if tier == 'quick' else 6})
+    # classes of use (variances, calling conventions / graph nodes, caller dim names, second use, fed-back results)
+    for k, group in enumerate([names[0::2], names[1::2]]):
+        shards.append({'part': 'uses', 'kernels': group, 'chain': k == 1, 'rounds': 1 if tier == 'quick' else 4})
+    # operands beyond every size threshold: heavy cases in shards of their own
+    for group in (names[0::2], names[1::2]):
+        shards.append({'part': 'sizes', 'kernels': group})
     return shards
 
 
@@ -787,7 +1383,24 @@ FORCED = [
     NEARLY + 'dispatch band (allowance 2 x tilt)',
     NEARLY + 'component above 1e-10 in every compared unit (rounding only)',
     NEARLY + 'refused in every compared unit',
-] + [NEARLY + 'beams in ' + u for u, _ in KINDS['beam']]
+] + [NEARLY + 'beams in ' + u for u, _ in KINDS['beam']] + [
+    'unphysical points (tof <= t0): ' + v for v in UNPHYSICAL.values()
+] + [
+    f'unphysical points: tof {a} x energy {b}' for a in ('float64', 'float32', 'int64') for b in ('float64', 'float32', 'int64')
+] + [
+    'unphysical points: event data', 'unphysical points: dense operands',
+    'operand with variances: power law', 'operand with variances: additive term',
+    'operand with variances: energy transfer (tof)', 'operand with variances: float64', 'operand with variances: float32',
+    'operand with variances: event data', 'operand with variances: dense',
+] + ['called ' + CALLS[c] for c in ('positional', 'mixed', 'graph')] + [
+    'graph node: event data', 'graph node: dense data array', 'graph node: masks on the data array',
+    'graph node: masks on the data array and on the events', 'graph node: dim named like the input coordinate',
+    'second use: same operands again after repr / deepcopy / == and a refused call',
+    'results fed back as operands: event data', 'results fed back as operands: dense',
+    'results fed back as operands: float32 result handed on', 'results fed back as operands: float64 result handed on',
+    'size 2**20 + 7', 'size 3 x 400001 (gravity kernels, 2-d)',
+    'operand layouts: all 0-D', 'operand layouts: over different dims (2-d result)', 'operand layouts: 0-D next to one per point',
+] + [f'caller dim named {d!r}' for d in DIM_NAMES]
 
 
 def requirements(tier):
@@ -796,9 +1409,104 @@ def requirements(tier):
         if layouts_of(s):
             ev[s.name + ' [event data]'] = 8
             ev[s.name + ' [0-D operands]'] = 4
+        ev[s.name + ' [large operands]'] = 1
+        ev[s.name + ' [second use]'] = 8
+        ev[s.name + ' [caller dim names]'] = 8
+        ev[s.name + ' [call ' + CALLS['graph'] + ']'] = 8
+        if s.name in POSITIONAL:
+            ev[s.name + ' [call ' + CALLS['positional'] + ']'] = 8
+            ev[s.name + ' [call ' + CALLS['mixed'] + ']'] = 8
+        if var_arg(s) and s.name not in GRAVITY_KERNELS:
+            ev[s.name + ' [variances]'] = 8
+        if vector_layouts(s):
+            ev[s.name + ' [operand layouts]'] = 4
+        if s.cond == 'inelastic':
+            ev[s.name + ' [unphysical points]'] = 100
     for k in GRAVITY_KERNELS:
         ev[k + ' [nearly perpendicular]'] = 40
-    return {'events': ev, 'forced': list(FORCED)}
+    ev['variances compared with first-order propagation'] = 200
+    ev['second call compared with the first'] = 200
+    ev['masks of the data array compared after the graph call'] = 100
+    ev['[results fed back]'] = 200
+    ev['[large operands]'] = 40
+    return {'events': ev, 'forced': list(FORCED),
+            'counters': {'second use: an operand in kg was refused, exception caught': 50}}
+
+
+def some_cells(rng, spec, k):
+    """About k cells of the kernel's grid: the dtype product first (units drawn among the feasible ones)."""
+    gen = layout_cells(rng, spec)
+
+    def cells(feasible):
+        out = gen(feasible)
+        if len(out) > k:
+            out = [out[i] for i in sorted(rng.choice(len(out), size=k, replace=False))]
+        return out
+    return cells
+
+
+def size_cells(rng, spec):
+    """The canonical cell and one cell per other dtype of the (first) data operand - float32, int64 - the rest drawn."""
+    gen = layout_cells(rng, spec)
+    lead = next((a.name for a in spec.args if a.data), next((a.name for a in spec.args if not a.vector), None))
+
+    def cells(feasible):
+        out = gen(feasible)
+        order = rng.permutation(len(out))
+        picked = []
+        scal = [a for a in spec.args if not a.vector]
+        # the canonical-unit float64 cell is always representable: at least one large case per kernel in every run
+        picked.append(({a.name: KINDS[a.kind][0][0] for a in spec.args}, {a.name: 'float64' for a in spec.args}))
+        for dt in ('float32', 'int64'):
+            for i in order:
+                units, dtypes = out[i]
+                if (lead is None or dtypes[lead] == dt) and all(feasible(a, units[a.name], dtypes[a.name]) for a in scal):
+                    picked.append(out[i])
+                    break
+            if lead is None:
+                break
+        return picked
+    return cells
+
+
+def run_uses(rng, ctx, spec, fn, mon, tier, k_index, seed, rounds):
+    """The classes of use of one kernel (see `Opt`)."""
+    lays = layouts_of(spec)
+    ev_lay = None
+    va = var_arg(spec)
+    if lays:
+        data = [a.name for a in spec.args if a.data]
+        ev_lay = Layout(tuple(data), 'per_bin')
+    for rnd in range(rounds):
+        pi = k_index + rnd  # alternates the gravity implementations / the 2-d layout
+        # (a) variances on the operand that has a first-order rule of its own
+        if va is not None:
+            run_kernel_grid(rng, ctx, spec, fn, some_cells(rng, spec, 48), tier, mon, pi, opt=Opt(variances=True))
+            if ev_lay is not None and spec.cond != 'inelastic' and spec.name not in GRAVITY_KERNELS:
+                run_kernel_grid(rng, ctx, spec, fn, some_cells(rng, spec, 32), tier, mon, pi, layout=ev_lay,
+                                opt=Opt(variances=True))
+        # (d) calling conventions; (b) masks on the data array whose coordinates the graph node reads
+        first = next((a.name for a in spec.args if a.data), spec.args[0].name)
+        run_kernel_grid(rng, ctx, spec, fn, some_cells(rng, spec, 32), tier, mon, pi, opt=Opt(call='graph', masks=True))
+        run_kernel_grid(rng, ctx, spec, fn, some_cells(rng, spec, 16), tier, mon, pi, opt=Opt(call='graph', dim=first))
+        if ev_lay is not None:
+            run_kernel_grid(rng, ctx, spec, fn, some_cells(rng, spec, 32), tier, mon, pi, layout=ev_lay,
+                            opt=Opt(call='graph', masks=True))
+        if spec.name in POSITIONAL:
+            for c in ('positional', 'mixed'):
+                run_kernel_grid(rng, ctx, spec, fn, some_cells(rng, spec, 32), tier, mon, pi + (c == 'mixed'), opt=Opt(call=c))
+        # (c) dims named like names the implementation uses for its own dims / like the parameters
+        # (every name x every kernel; dense and event data alternate with the run)
+        for j, d in enumerate(DIM_NAMES):
+            run_kernel_grid(rng, ctx, spec, fn, some_cells(rng, spec, 3), tier, mon, pi + j, opt=Opt(dim=d),
+                            layout=ev_lay if (j + k_index + seed + rnd) % 2 and ev_lay is not None else DENSE)
+        # every layout of the vector operands (0-D, one per point, dims of their own); propagate_times: of the distance
+        for vec in vector_layouts(spec):
+            run_kernel_grid(rng, ctx, spec, fn, some_cells(rng, spec, 24), tier, mon, pi, opt=Opt(vec=vec))
+        # (g, j) second use of the same operands
+        run_kernel_grid(rng, ctx, spec, fn, some_cells(rng, spec, 32), tier, mon, pi, opt=Opt(second=True))
+        if ev_lay is not None:
+            run_kernel_grid(rng, ctx, spec, fn, some_cells(rng, spec, 16), tier, mon, pi, layout=ev_lay, opt=Opt(second=True))
 
 
 def run(shard, ctx):
@@ -815,33 +1523,67 @@ def run(shard, ctx):
     rng2 = np.random.Generator(np.random.PCG64([shard['seed'], shard['index'], 11]))  # layout / geometry classes
     mon = Monitor(ctx)
     tr = Tracer()
+    fns = {}
     for s in SPECS:
-        tr.watch(getattr(mods[s.mod], s.name), s.name, on_return=mon.handler(s.name))
+        fns[s.name] = getattr(mods[s.mod], s.name)
+        tr.watch(fns[s.name], s.name, on_return=mon.handler(s.name))
     full = {}
     if shard.get('part') == 'classes':
         # forced classes, the same in every run
         with tr:
             for name in shard['kernels']:
                 spec = SPEC_BY_NAME[name]
-                fn = getattr(mods[spec.mod], spec.name)
+                fn = fns[name]
                 lays = layouts_of(spec)
                 for rnd in range(shard['rounds']):
                     # event-data / 0-D layouts x the dtype product ...
                     for il, lay in enumerate(lays):
                         run_kernel_grid(rng2, ctx, spec, fn, layout_cells(rng2, spec), shard['tier'], mon,
                                         il + rnd * len(lays), layout=lay)
+                    # ... arrival times at or before t0 (documented: NaN there) x the dtype product of tof x energy ...
+                    if spec.cond == 'inelastic':
+                        data = tuple(a.name for a in spec.args if a.data)
+                        for pattern, lay in (('some', DENSE), ('zero', DENSE), ('all', Layout((), 'scalar', arrays=data)),
+                                             ('some', Layout(data, 'per_bin')), ('zero', Layout(('tof',), 'per_bin')),
+                                             ('some', Layout((data[1],), 'per_bin'))):
+                            run_kernel_grid(rng2, ctx, spec, fn, layout_cells(rng2, spec), shard['tier'], mon, rnd,
+                                            layout=lay, opt=Opt(unphysical=pattern))
                     # ... and nearly perpendicular incident beams x every beam unit for the gravity kernels
                     if name in GRAVITY_KERNELS:
                         run_gravity_tilt(rng2, ctx, spec, fn, mon)
                 full[name] = {'layouts': [lay.tag for lay in lays], 'rounds': shard['rounds']}
                 if name in GRAVITY_KERNELS:
                     full[name]['nearly_perpendicular_tilts'] = len(TILT_LADDER) * shard['rounds']
+                if spec.cond == 'inelastic':
+                    full[name]['unphysical_point_patterns'] = list(UNPHYSICAL.values())
         ctx.extra['classes_' + '_'.join(shard['kernels'])] = full
+        return
+    if shard.get('part') == 'uses':
+        with tr:
+            for name in shard['kernels']:
+                run_uses(rng2, ctx, SPEC_BY_NAME[name], fns[name], mon, shard['tier'],
+                         [s.name for s in SPECS].index(name), shard['seed'], shard['rounds'])
+            if shard.get('chain'):
+                for _ in range(shard['rounds']):
+                    run_chain(rng2, ctx, fns, mon)
+        ctx.extra['uses_' + str(shard['index'])] = {'kernels': shard['kernels'], 'rounds': shard['rounds'],
+                                                   'chain': [c[0] for c in CHAIN] if shard.get('chain') else None}
+        return
+    if shard.get('part') == 'sizes':
+        with tr:
+            for k, name in enumerate(shard['kernels']):
+                spec = SPEC_BY_NAME[name]
+                run_kernel_grid(rng2, ctx, spec, fns[name], size_cells(rng2, spec), shard['tier'], mon, k % 2,
+                                opt=Opt(size=BIG))
+                if name in GRAVITY_KERNELS:
+                    run_kernel_grid(rng2, ctx, spec, fns[name], size_cells(rng2, spec), shard['tier'], mon, 2,
+                                    opt=Opt(size=BIG_2D))
+        ctx.extra['sizes_' + str(shard['index'])] = {'kernels': shard['kernels'], 'elements': BIG, 'two_d': list(BIG_2D)}
         return
     with tr:
         for name in shard['kernels']:
             spec = SPEC_BY_NAME[name]
-            fn = getattr(mods[spec.mod], spec.name)
+            fn = fns[name]
             cells = list(all_cells(spec))
             total = len(cells)
             budget = shard['cells']
@@ -871,7 +1613,10 @@ LEVEL_TEXT = ('exploration: for each of 20 kernels, physical points are re-expre
               'per physical point; points are sampled. Every run also drives each data operand as binned event data '
               '(and with 0-D operands) through the full dtype product, and the gravity kernels with nearly '
               'perpendicular incident beams through every beam-unit pair (same result to rounding, same '
-              'refuse/accept decision of the yz variant, outside the documented dispatch band).')
+              'refuse/accept decision of the yz variant, outside the documented dispatch band), the energy-transfer '
+              'kernels with arrival times at or before t0 through the dtype product of tof x energy, and per kernel the '
+              'classes of use the signatures allow (variances, positional / graph-node calls, masks, caller dim names, '
+              'vector layouts, second use, fed-back results, 2**20 + 7 elements).')
 LEVEL_NOTE = ('trusted: the canonical-unit float64 results (decided by C01/C03/C04/C05/C08), the independent SI table, '
               'scipp DTypeError as the sign of arithmetic scipp does not support')
 DESIGN_REF = 'DESIGN.md section 4, C07'
